@@ -1087,3 +1087,62 @@ def r12_6(ctx):
                            "`%s` is applied to the generated move list `%s`: the list may be reordered and annotated but not filtered, truncated or extended, otherwise the search is not over the engine's own move generation" % (c, b.lname(v)))
     ctx.ob("move-lists-only-reordered", True, "", "%d uses of generated move lists examined" % n, nontrivial=False)
     ctx.floor("uses of move lists", n, 6)
+
+
+def _arith_consts(e):
+    """Constants of the arithmetic expression e (descends unary/binary/cast nodes only)."""
+    out = []
+    st = [e]
+    while st:
+        x = st.pop()
+        if x[0] == "const":
+            out.append(x)
+        elif x[0] == "bin":
+            st += [x[2], x[3]]
+        elif x[0] in ("un", "cast", "ref", "deref", "copy"):
+            st += [y for y in x[1:] if isinstance(y, tuple)]
+    return out
+
+
+def r11_6(ctx):
+    """Every mate-range constant that enters the score flow of the search carries a distance: it occurs
+    only as `MATE_SCORE - ply` / `ply - MATE_SCORE` with ply the ply-from-root parameter.  A bare
+    +-MATE_SCORE is a mate "in 0", which the reporter prints as `score mate 0`."""
+    f = ctx.facts
+    mate = f.const_value("engine::MATE_SCORE")
+    n = 0
+    for fn in (ABS, QUIESCE, GBM):
+        if not f.has_body(fn):
+            raise AnchorMissing(fn)
+        b = f.body(fn)
+        ctx.note_fn(fn)
+        ex = Exprs(b)
+        i32s = params_by_type(b, "i32")
+        roots = []
+        for loc, st in b.iter_stmts():
+            if st["k"] == "assign" and loc[0] in b.reachable and not st["place"]["proj"] and (st["place"]["local"] == 0 or st["place"]["local"] in b.names):
+                roots.append((loc, ex.rvalue(st["rv"], loc)))
+        for bb, t in b.iter_calls():
+            if bb in b.reachable:
+                for a in ex.call_args(bb):
+                    roots.append((b.term_loc(bb), strip_refs(a)))
+        k = 0
+        seen = set()
+        for loc, e in roots:
+            if e[0] == "checked":
+                e = e[1] if len(e) > 1 and isinstance(e[1], tuple) else e
+            hit = [x for x in _arith_consts(e) if isinstance(x[1], int) and not isinstance(x[1], bool) and mate - 1000 <= abs(x[1]) <= mate + 1000]
+            if not hit or (loc, e) in seen:
+                continue
+            seen.add((loc, e))
+            n += 1
+            k += 1
+            le = linear(e)
+            ok = False
+            if le is not None and abs(le[1]) == mate and len(le[0]) == 1:
+                (term, coeff), = le[0].items()
+                ok = term[0] == "arg" and term[1] in i32s and coeff == (1 if le[1] < 0 else -1)
+            ctx.ob("%s:mate-constant#%d" % (fn.split("::")[-1], k), ok, b.where(loc),
+                   "`%s`: %s" % (show_expr(e, b)[:70], "MATE_SCORE combined with the ply-from-root parameter" if ok else
+                                 "a mate-range score without a distance enters the search: the root reports it as `score mate 0` and it compares equal for every mating line"))
+    ctx.floor("mate-range constants in the search", n, 2)
